@@ -112,7 +112,12 @@ func (s Segment) Recover(params index.Params) error {
 	}
 	defer func() { _ = log.Close() }()
 
-	restore, err := message.OpenWriter(s.Log+".recover", s.Offset, log.Version())
+	// A previous Recover may have been interrupted: its temporary file must not be appended to.
+	restorePath := s.Log + ".recover"
+	if err := os.Remove(restorePath); err != nil && !errors.Is(err, os.ErrNotExist) {
+		return fmt.Errorf("restore remove stale temp: %w", err)
+	}
+	restore, err := message.OpenWriter(restorePath, s.Offset, log.Version())
 	if err != nil {
 		return err
 	}
